@@ -170,6 +170,12 @@ def run(repo, rep, tier):
     _r10_values_not_defaulted_by_truth(repo, rep)
     _r11_keyword_by_own_attribute(repo, rep)
     _r13_declaration_cache_follows_repository(repo, rep)
+    # the class an instance is typed from (MOFWBEMConnection.GetClass with
+    # LocalOnly=False) merges inherited elements by name: an override
+    # spelled in another lexical case must still win (NocaseDict
+    # membership, not `name in d.keys()`)
+    from .c09 import _r13_names_compared_caselessly
+    _r13_names_compared_caselessly(repo, rep, 'C08.R14')
     from .c09 import per_compile_state_rule
     per_compile_state_rule(repo, rep, rep.rule(
         'C08.R12', 'the compiler leaves the embedded-object mode (and other '
@@ -680,7 +686,7 @@ def grammar_productions(mof):
     return prods
 
 
-def _r8_symbols_consumed(repo, rep):
+def _r8_symbols_consumed(repo, rep, rid='C08.R8', exempt=None):
     """C08.R8: a grammar action reads the semantic value of every
     value-carrying symbol of each of its alternatives (on a branch that is
     compatible with that alternative's length).  A symbol that is parsed
@@ -689,7 +695,7 @@ def _r8_symbols_consumed(repo, rep):
     tomof() writes it."""
     import re as _re
     from ..cfg import stmt_facts, GuardWalker
-    r8 = rep.rule('C08.R8', 'every value-carrying grammar symbol is read by '
+    r8 = rep.rule(rid, 'every value-carrying grammar symbol is read by '
                   'its action')
     mof = repo.module(MOF)
     prods = grammar_productions(mof)
@@ -821,7 +827,25 @@ def _r8_symbols_consumed(repo, rep):
                                       m2.group(2), q))
                 return out_
             for e in exprs:
+                # `p[k] == '{'` / isinstance(p[k], str) tell the
+                # alternatives apart; they do not use the symbol's value
+                discr = set()
+                for c_ in ast.walk(e):
+                    if isinstance(c_, ast.Compare) and len(c_.ops) == 1 and \
+                            isinstance(c_.ops[0], (ast.Eq, ast.NotEq)):
+                        a_, b_ = c_.left, c_.comparators[0]
+                        for u_, w_ in ((a_, b_), (b_, a_)):
+                            if isinstance(w_, ast.Constant) and \
+                                    isinstance(w_.value, str) and \
+                                    not (w_.value[:1].isalnum() or
+                                         w_.value[:1] == '_'):
+                                discr.add(id(u_))
+                    elif isinstance(c_, ast.Call) and \
+                            dotted(c_.func) == 'isinstance' and c_.args:
+                        discr.add(id(c_.args[0]))
                 for x in ast.walk(e):
+                    if id(x) in discr:
+                        continue
                     if isinstance(x, ast.Subscript) and \
                             norm(x.value) == 'p' and \
                             isinstance(x.ctx, ast.Load):
@@ -849,6 +873,12 @@ def _r8_symbols_consumed(repo, rep):
                 r8.sites += 1
                 ok = generic or any(compat(l, n1, alt)
                                     for l in reads.get(k, []))
+                if not ok and exempt and (n, sym) in exempt:
+                    # one named symbol of one action, with the reason why
+                    # dropping it cannot affect this property
+                    r8.notes.append('%s %s: not judged here - %s'
+                                    % (n, sym, exempt[(n, sym)]))
+                    ok = True
                 r8.ob(ok, '%s|%s|%d' % (n, ' '.join(alt), k))
                 if not ok:
                     rep.finding(r8, n, '%s : %s' % (lhs, ' '.join(alt)),
